@@ -295,12 +295,15 @@ func (cb *cbox) crashOracle() {
 			if !shares {
 				continue
 			}
-			if !vfShareOK(rec.Reqs[k], rec.Reqs[o]) {
+			// only pairs the implementation is certainly meant to let share are "not in conflict"
+			// (a Cluster/Local pair with identical selectors is allowed by the statement but refused
+			// by the code: whoever is re-processed second has to move, legitimately)
+			if !vfShareCertain(rec.Reqs[k], rec.Reqs[o]) {
 				return true
 			}
 			if final[o] != nil {
 				fr := vfSvcRequirement(final[o])
-				if !vfShareOK(rec.Reqs[k], &fr) {
+				if !vfShareCertain(rec.Reqs[k], &fr) {
 					return true
 				}
 			}
@@ -472,6 +475,7 @@ func TestVerif_C06(t *testing.T) {
 		}
 		for _, idx := range picks {
 			faults := boxFaultPlan(c.R)
+			c.ResetTrace()
 			c.Logf("######## crash run: crash at point %d (%s), fault plan %v", idx, labels[idx-1], faults)
 			cb := boxHistoryOpt(c, boxMonFlags{c06: true, c01: true, c02: true}, o, genSeed, schedSeed, idx, faults, false)
 			c.Count("crash-runs")
